@@ -204,7 +204,12 @@ Fixpoint forallb2 {A B} (f : A -> B -> bool) (a : list A) (b : list B) : bool :=
   end.
 
 (* every update is a visible later version of the child at its index, stamped with its stamp *)
-Definition update_ok (i : ainput) (refs_a : list ref) (u : update) : bool :=
+(* when no version was selected for a reference (inconsistency ignored) its updates are still "the
+   LATER child versions": versions stamped before the parent version are not resurrected *)
+Definition later_than_parent (i : ainput) (p0 : parent) (c : child) : bool :=
+  pstamp (i_cis i) p0 <=? stamp (i_cis i) c.
+
+Definition update_ok (i : ainput) (p0 : parent) (refs_a : list ref) (u : update) : bool :=
   match nth_error refs_a (u_index u) with
   | Some ra =>
       match hist_of i (r_id ra) with
@@ -216,8 +221,8 @@ Definition update_ok (i : ainput) (refs_a : list ref) (u : update) : bool :=
               && (if stamp_consistent (i_cis i) c then u_timestamp u =? stamp (i_cis i) c else true)
               && match find_version cl (r_version ra) with
                  | Some s => if carries ra s then Nat.ltb (c_vidx s) (c_vidx c)
-                             else true          (* a stale pre-annotation, nothing was selected *)
-                 | None => true
+                             else later_than_parent i p0 c   (* a stale pre-annotation, nothing was selected *)
+                 | None => later_than_parent i p0 c
                  end
           | None => false
           end
@@ -228,7 +233,7 @@ Definition update_ok (i : ainput) (refs_a : list ref) (u : update) : bool :=
 
 Definition parent_ok (i : ainput) (p0 : parent) (refs_a : list ref) (us : list update) : bool :=
   if p_visible p0 then
-    forallb2 (annotated_ref_ok i p0) (p_refs p0) refs_a && forallb (update_ok i refs_a) us
+    forallb2 (annotated_ref_ok i p0) (p_refs p0) refs_a && forallb (update_ok i p0 refs_a) us
   else
     (* deleted parent versions receive no annotations *)
     list_eqb ref_eqb (p_refs p0) refs_a && Nat.eqb (length us) 0.
